@@ -242,7 +242,8 @@ def rand_spec(stratum=None, tiny=None):
 
 
 # ------------------------------------------------------------------ build
-def build(sp):
+def build(sp, use_mask=True, rot_cls=None, phase_list=None, with_props=True):
+    """The optional arguments are used by the audit strata only (secondary ways of making the same map)."""
     nr, nc, kind = sp["nr"], sp["nc"], sp["kind"]
     n = nr * nc
     if kind == "2d":
@@ -255,23 +256,31 @@ def build(sp):
         x, y = np.zeros(n), np.arange(n) * sp["dy"]
     else:  # 1dy
         x, y = None, np.arange(n) * sp["dy"]
+    x0, y0 = sp.get("origin") or (0.0, 0.0)      # only audit specs have an origin
+    if x0 or y0:
+        x = None if x is None else x + x0
+        y = None if y is None else y + y0
     q = np.array(sp["quat"], dtype=float)
     rot = Rotation(q[:, 0, :]) if sp["rpp"] == 1 else Rotation(q)
+    if rot_cls is not None:
+        rot = rot_cls(rot)
     ph = sp["phases"]
-    pl = PhaseList(
+    pl = phase_list if phase_list is not None else PhaseList(
         names=[p["name"] for p in ph],
         point_groups=[p["pg"] for p in ph],
         ids=[p["id"] for p in ph],
         structures=[Structure(lattice=Lattice(*p["lat"])) for p in ph],
     )
     prop = {}
-    for p in sp["props"]:
+    for p in sp["props"] if with_props else []:
         a = np.array(p["vals"], dtype=float)
         if p["kind"] == "int":
             a = a.astype(np.int64)
+        if p.get("dtype"):                         # only audit specs name a dtype
+            a = a.astype(np.dtype(p["dtype"]))
         prop[p["name"]] = a
     kw = {}
-    if sp["mask"] is not None:
+    if sp["mask"] is not None and use_mask:
         kw["is_in_data"] = np.array(sp["mask"], dtype=bool)
     return CrystalMap(rotations=rot, phase_id=np.array(sp["pid"], dtype=int), x=x, y=y, phase_list=pl,
                       prop=prop, **kw)
@@ -629,6 +638,722 @@ def run_spec(sp):
         fail("oracle:crash", f"oracle could not evaluate the case: {type(e).__name__}: {e}", sp)
 
 
+# ------------------------------------------------------------------ audit strata (property oracle only)
+# Secondary entry points, histories and input classes which the generator above never produces.  They are NOT sent
+# to the Coq correspondence (the model has no notion of dtype / origin / history); every stratum calls the real
+# implementation and compares either with the property oracle above or with the file written for the same map
+# made through the primary path (constructor + io.save(str)).  A replay spec is the base spec (what the primary
+# path builds) plus "variant": {"name": ..., parameters}; `run_variant` is deterministic given that spec.
+KNOWN_SIGS = {"shape:coarse-step", "phase-name:blank-run", "indexed:ci=-1", "indexed:extra-named-ci"}
+STD_KW = (("iq", "image_quality_prop"), ("ci", "confidence_index_prop"),
+          ("ds", "detector_signal_prop"), ("fit", "pattern_fit_prop"))
+
+
+def kwargs_of(sp):
+    kw = sp["kw"]
+    kwargs = {}
+    if kw["index"] is not None:
+        kwargs["index"] = kw["index"]
+    for slot, arg in STD_KW:
+        if kw[slot] is not None:
+            kwargs[arg] = kw[slot]
+    if kw["extra"] is not None:
+        kwargs["extra_prop"] = kw["extra"]
+    return kwargs
+
+
+def write_read(xm, kwargs, writer="save-str", reader="load-str"):
+    """(text of the written file or None, loaded map or None, exception text)"""
+    import pathlib
+    from orix.io.plugins import ang as ang_plugin
+    path = os.path.join(TMP, "t.ang")
+    if writer == "save-path-upper":
+        path = os.path.join(TMP, "T2.ANG")
+    if os.path.exists(path):
+        os.remove(path)
+    text = xm2 = None
+    exc = ""
+    try:
+        if writer == "save-str":
+            io.save(path, xm, overwrite=True, **kwargs)
+        elif writer == "save-path-upper":        # pathlib.Path, upper-case extension, overwrite=False on a new file
+            io.save(pathlib.Path(path), xm, overwrite=False, **kwargs)
+        elif writer == "plugin":                  # the plugin's writer called directly
+            ang_plugin.file_writer(path, xm, **kwargs)
+        elif writer == "overwrite-longer":        # an existing, longer file is replaced
+            with open(path, "w") as f:
+                f.write("# stale header line\n" * 80 + "0.0 0.0 0.0 0.0 0.0 0.0 0.0 1 0.0 0.0 9.0 9.0 9.0\n" * 400)
+            io.save(path, xm, overwrite=True, **kwargs)
+        else:
+            raise AssertionError(writer)
+        text = open(path).read()
+    except Exception as e:  # noqa
+        exc = f"{type(e).__name__}: {e}"
+    if text is not None:
+        try:
+            if reader == "load-str":
+                xm2 = io.load(path)
+            elif reader == "load-path":
+                xm2 = io.load(pathlib.Path(path))
+            elif reader == "plugin":
+                xm2 = ang_plugin.file_reader(path)
+            else:
+                raise AssertionError(reader)
+        except Exception as e:  # noqa
+            exc = f"{type(e).__name__}: {e}"
+    return text, xm2, exc
+
+
+def first_diff(a, b):
+    la, lb = a.split("\n"), b.split("\n")
+    for i, (u, v) in enumerate(zip(la, lb)):
+        if u != v:
+            return f"line {i + 1}: {u!r} != {v!r}"
+    return f"{len(la)} lines != {len(lb)} lines"
+
+
+def audit_oracle(xm, vsp, tag, **wr):
+    """the property oracle on a map made through a secondary path; signatures get the stratum as a prefix
+    (those of the listed findings stay as they are)"""
+    kwargs = kwargs_of(vsp)
+    text, xm2, exc = write_read(xm, kwargs, **wr)
+    n0 = len(fails)
+    try:
+        oracle(xm, vsp, kwargs, xm2, text is not None, xm2 is not None, exc)
+    except Exception as e:  # noqa
+        fail("oracle:crash", f"oracle could not evaluate the case: {type(e).__name__}: {e}", vsp)
+    for f in fails[n0:]:
+        if f["sig"] not in KNOWN_SIGS:
+            # the stratum is the tag: the size classes of "write-raises:" (strata of repaired defects) are dropped
+            f["sig"] = tag + "/" + ("write-raises" if f["sig"].startswith("write-raises:") else f["sig"])
+            f["what"] = f"[{tag}] " + f["what"]
+    st("audit/" + tag)
+    st("audit-outcome/" + ("roundtrip" if xm2 is not None else ("load-raises" if text is not None else "save-raises")))
+    return text, xm2, exc
+
+
+def audit_same_file(tag, ref, alt, vsp, what):
+    """ref, alt = (text, loaded, exc) of the primary and of the secondary path for the SAME map"""
+    if ref[0] is None and alt[0] is None:
+        st("audit-same/both-refuse")
+        return
+    if (ref[0] is None) != (alt[0] is None):
+        fail(f"{tag}/raises", f"{what}: one path writes the map, the other raises "
+                              f"(primary: {ref[2] or 'ok'}; secondary: {alt[2] or 'ok'})", vsp)
+    elif ref[0] != alt[0]:
+        fail(f"{tag}/file-differs", f"{what}: the written files differ, {first_diff(ref[0], alt[0])}", vsp)
+    else:
+        st("audit-same/identical")
+
+
+def same_loaded(a, b):
+    """first difference of two loaded maps or ''"""
+    if a is None or b is None:
+        return "" if a is b else "one map could not be loaded"
+    if tuple(a.shape) != tuple(b.shape):
+        return f"shape {a.shape} != {b.shape}"
+    if float(a.dx) != float(b.dx) or float(a.dy) != float(b.dy):
+        return f"steps {(a.dx, a.dy)} != {(b.dx, b.dy)}"
+    if not np.array_equal(a.phase_id, b.phase_id):
+        return "phase ids differ"
+    if not np.array_equal(a.rotations.data, b.rotations.data):
+        return "rotations differ"
+    if list(a.prop.keys()) != list(b.prop.keys()):
+        return f"properties {list(a.prop.keys())} != {list(b.prop.keys())}"
+    for k in a.prop.keys():
+        if not np.array_equal(a.prop[k], b.prop[k]):
+            return f"property {k!r} differs"
+    pa = [(i, p.name, getattr(p.point_group, "name", None), tuple(p.structure.lattice.abcABG())) for i, p in a.phases]
+    pb = [(i, p.name, getattr(p.point_group, "name", None), tuple(p.structure.lattice.abcABG())) for i, p in b.phases]
+    if pa != pb:
+        return f"phases {pa} != {pb}"
+    return ""
+
+
+CLEAN = ["plain", "plain", "masked", "masked", "multi-layer", "kw", "1d", "tiny", "column", "big-coords",
+         "three-in-data", "one-in-data"]
+
+
+def base_spec(strata=None, **need):
+    """a spec of the primary generator from the strata without listed findings"""
+    for _ in range(200):
+        sp = rand_spec(R.choice(strata or CLEAN))
+        if need.get("props") and not sp["props"]:
+            continue
+        if need.get("two_axes") and not (sp["kind"] == "2d" and sp["nr"] > 1 and sp["nc"] > 1):
+            continue
+        if need.get("phases") and len(sp["phases"]) < need["phases"]:
+            continue
+        return sp
+    raise AssertionError("no base spec")
+
+
+def grid_rc(sp):
+    """(rows, cols) of the full grid as the CrystalMap sees it"""
+    if sp["kind"] == "2d":
+        return sp["nr"], sp["nc"]
+    return (1, sp["nc"]) if sp["kind"] == "1dx" else (sp["nr"], 1)
+
+
+def rect_mask(rows, cols, r0, r1, c0, c1):
+    return [(r0 <= i // cols < r1) and (c0 <= i % cols < c1) for i in range(rows * cols)]
+
+
+def rand_rect(rows, cols):
+    r0, r1 = (0, 1) if rows == 1 else sorted(R.sample(range(rows + 1), 2))
+    c0, c1 = (0, 1) if cols == 1 else sorted(R.sample(range(cols + 1), 2))
+    return r0, r1, c0, c1
+
+
+def slice_key(rows, cols, r0, r1, c0, c1):
+    """the key selecting the rectangle (relative to the bounding box of the points in data) in a selection of a
+    map whose FULL grid is rows x cols: an axis exists iff the full grid has more than one point along it"""
+    key = []
+    if rows > 1:
+        key.append(slice(r0, r1))
+    if cols > 1:
+        key.append(slice(c0, c1))
+    return tuple(key)
+
+
+# ---- 1. histories: the written map is a selection made by __getitem__ (slices, boolean arrays, phase names,
+#         "indexed", selections of selections, deep copies) or gets its properties after the selection
+HISTORIES = ["bool", "slice", "slice-of-slice", "bool-then-slice", "phase-name", "phase-names", "indexed",
+             "deepcopy", "prop-after-select", "int-1d"]
+
+
+def gen_history(how):
+    sp = base_spec(["plain", "plain", "multi-layer", "kw", "1d", "big-coords", "column"])
+    if how in ("phase-name", "phase-names", "indexed"):
+        sp = base_spec(["plain", "kw", "multi-layer"], phases=2)
+    if how == "int-1d":
+        sp = base_spec(["1d", "column"])
+    rows, cols = grid_rc(sp)
+    n = rows * cols
+    v = {"name": "history", "how": how}
+    mask = None
+    if how in ("phase-name", "phase-names"):
+        names = [p["name"] for p in sp["phases"]]
+        ok = [p for p in sp["phases"] if p["name"] and names.count(p["name"]) == 1 and p["id"] in sp["pid"]]
+        if ok:
+            take = ok[:1] if how == "phase-name" else ok[:2]
+            v["names"] = [p["name"] for p in take]
+            ids = [p["id"] for p in take]
+            mask = [i in ids for i in sp["pid"]]
+    elif how == "indexed":
+        if any(i != -1 for i in sp["pid"]):
+            mask = [i != -1 for i in sp["pid"]]
+    elif how in ("slice", "slice-of-slice"):
+        if n > 1:
+            v["rect"] = rand_rect(rows, cols)
+            mask = rect_mask(rows, cols, *v["rect"])
+    elif how == "int-1d":
+        v["k"] = R.randrange(n)
+        mask = [i == v["k"] for i in range(n)]
+    elif how == "bool-then-slice":
+        for _ in range(30):
+            m1 = [R.random() < 0.7 for _ in range(n)]
+            if not any(m1):
+                continue
+            rr = [i // cols for i in range(n) if m1[i]]
+            cc = [i % cols for i in range(n) if m1[i]]
+            br, bc = max(rr) - min(rr) + 1, max(cc) - min(cc) + 1
+            if br * bc < 2:
+                continue
+            a0, a1, b0, b1 = rand_rect(br, bc)
+            m2 = rect_mask(rows, cols, min(rr) + a0, min(rr) + a1, min(cc) + b0, min(cc) + b1)
+            m = [x and y for x, y in zip(m1, m2)]
+            if any(m):
+                v.update(first=m1, box=[br, bc], rect=[a0, a1, b0, b1])
+                mask = m
+                break
+    if mask is None:                      # "bool", "deepcopy", "prop-after-select" and every fallback
+        if how not in ("bool", "deepcopy", "prop-after-select"):
+            v["how"] = how = "bool"
+        mask = [R.random() < 0.6 for _ in range(n)]
+        if not any(mask):
+            mask[R.randrange(n)] = True
+    if how == "prop-after-select":         # the property setter of a selection takes one value per point only
+        sp["props"] = [p for p in sp["props"] if not p["multi"]]
+        for s in ("iq", "ci", "ds", "fit"):
+            if sp["kw"][s] and sp["kw"][s] not in [p["name"] for p in sp["props"]]:
+                sp["kw"][s] = None
+        if sp["kw"]["extra"] is not None:
+            ex = [sp["kw"]["extra"]] if isinstance(sp["kw"]["extra"], str) else sp["kw"]["extra"]
+            sp["kw"]["extra"] = [e for e in ex if e in [p["name"] for p in sp["props"]]]
+    sp["mask"] = mask
+    sp["variant"] = v
+    return sp
+
+
+def run_history(vsp):
+    v = vsp["variant"]
+    how = v["how"]
+    tag = "history=" + how
+    rows, cols = grid_rc(vsp)
+    mask = np.array(vsp["mask"], dtype=bool)
+    ref = write_read(build(vsp), kwargs_of(vsp))
+    full = build(vsp, use_mask=False, with_props=how != "prop-after-select")
+    if how in ("bool", "deepcopy", "prop-after-select"):
+        alt = full[mask]
+    elif how == "slice":
+        alt = full[slice_key(rows, cols, *v["rect"])]
+    elif how == "slice-of-slice":
+        r0, r1, c0, c1 = v["rect"]
+        alt = full[slice_key(rows, cols, r0, rows, c0, cols)][slice_key(rows, cols, 0, r1 - r0, 0, c1 - c0)]
+    elif how == "bool-then-slice":
+        alt = full[np.array(v["first"], dtype=bool)][slice_key(rows, cols, *v["rect"])]
+    elif how == "phase-name":
+        alt = full[v["names"][0]]
+    elif how == "phase-names":
+        alt = full[tuple(v["names"])]
+    elif how == "indexed":
+        alt = full["indexed"]
+    elif how == "int-1d":
+        alt = full[int(v["k"])]
+    else:
+        raise AssertionError(how)
+    if how == "deepcopy":
+        alt = alt.deepcopy()
+    if how == "prop-after-select":
+        for p in vsp["props"]:
+            a = np.array(p["vals"], dtype=float)
+            if p["kind"] == "int":
+                a = a.astype(np.int64)
+            alt.prop[p["name"]] = a[mask]
+    if not np.array_equal(alt.is_in_data, mask):
+        fail(f"{tag}/selection", f"the selection {how} does not select the expected points "
+                                 f"({alt.is_in_data.astype(int).tolist()} instead of {mask.astype(int).tolist()})", vsp)
+        return
+    got = audit_oracle(alt, vsp, tag)
+    audit_same_file(tag, ref, got, vsp, f"map selected by {how} vs the same map made by the constructor")
+
+
+# ---- 2. in-place changes before writing: phase renamed / point group / structure set through the phase list, phase
+#         ids and property values of a selection set through the setters, a phase added that no point has
+INPLACE = ["rename-phase", "set-point-group", "set-structure", "set-phase-id", "set-prop", "add-phase"]
+
+
+def gen_inplace(how):
+    sp = base_spec(props=(how == "set-prop"))
+    n = sp["nr"] * sp["nc"]
+    v = {"name": "inplace", "how": how}
+    in_data = sp["mask"] or [True] * n
+    if how in ("rename-phase", "set-point-group", "set-structure"):
+        for _ in range(100):                  # a phase that some point has (the constructor drops the others)
+            if any(p["id"] in sp["pid"] for p in sp["phases"]):
+                break
+            sp = base_spec()
+        v["k"] = R.choice([k for k, p in enumerate(sp["phases"]) if p["id"] in sp["pid"]])
+        if how == "set-point-group" and sp["phases"][v["k"]]["pg"] is None:
+            sp["phases"][v["k"]]["pg"] = R.choice(GROUP_NAMES)
+    elif how == "set-phase-id":
+        # final ids = the spec's; before, the points of `sel` had other ids of the same set (the first point of
+        # every id is not selected, so that the phase list is the same before and after)
+        first = {}
+        for i, p in enumerate(sp["pid"]):
+            first.setdefault(p, i)
+        cand = [i for i in range(n) if in_data[i] and first[sp["pid"][i]] != i]
+        sel = [i for i in cand if R.random() < 0.5] or cand[:1]
+        vals = sorted(first)
+        v["sel"] = sel
+        v["before"] = [R.choice(vals) for _ in sel]
+        v["scalar"] = bool(sel) and len(set(sp["pid"][i] for i in sel)) == 1
+    elif how == "set-prop":
+        ok = [p for p in sp["props"] if not p["multi"]]
+        if not ok:
+            sp["props"][0]["multi"] = 0
+            sp["props"][0]["vals"] = [r[0] for r in sp["props"][0]["vals"]]
+            ok = [sp["props"][0]]
+        p = R.choice(ok)
+        v["prop"] = p["name"]
+        cand = [i for i in range(n) if in_data[i]]
+        v["sel"] = [i for i in cand if R.random() < 0.5] or cand[:1]
+        v["before"] = [rand_value("signed") for _ in v["sel"]]
+        v["attr"] = bool(p["name"].isidentifier() and R.random() < 0.5)
+    else:
+        used = [p["name"] for p in sp["phases"]]
+        v["phase"] = {"name": R.choice([nm for nm in NAMES_PLAIN if nm not in used]),
+                      "pg": R.choice(GROUP_NAMES), "lat": rand_lattice()}
+    sp["variant"] = v
+    return sp
+
+
+def run_inplace(vsp):
+    v = vsp["variant"]
+    how = v["how"]
+    tag = "inplace=" + how
+    n = vsp["nr"] * vsp["nc"]
+    in_data = np.array(vsp["mask"] or [True] * n, dtype=bool)
+    before = dict(vsp)
+    if how in ("rename-phase", "set-point-group", "set-structure"):
+        ph = [dict(p) for p in vsp["phases"]]
+        k = v["k"]
+        if how == "rename-phase":
+            ph[k]["name"] = "tmp name 0"
+        elif how == "set-point-group":
+            ph[k]["pg"] = None
+        else:
+            ph[k]["lat"] = [1.0, 1.0, 1.0, 90.0, 90.0, 90.0]
+        before["phases"] = ph
+    elif how == "set-phase-id":
+        pid = list(vsp["pid"])
+        for i, b in zip(v["sel"], v["before"]):
+            pid[i] = b
+        before["pid"] = pid
+    elif how == "set-prop":
+        props = [dict(p) for p in vsp["props"]]
+        for p in props:
+            if p["name"] == v["prop"]:
+                vals = list(p["vals"])
+                for i, b in zip(v["sel"], v["before"]):
+                    vals[i] = float(int(b)) if p["kind"] == "int" else b
+                p["vals"] = vals
+        before["props"] = props
+    alt = build(before)
+    if how in ("rename-phase", "set-point-group", "set-structure"):
+        p = vsp["phases"][v["k"]]
+        target = alt.phases[p["id"]]
+        if how == "rename-phase":
+            target.name = p["name"]
+        elif how == "set-point-group":
+            target.point_group = p["pg"]
+        else:
+            target.structure = Structure(lattice=Lattice(*p["lat"]))
+    elif how in ("set-phase-id", "set-prop") and v["sel"]:
+        key = np.zeros(n, dtype=bool)
+        key[v["sel"]] = True
+        part = alt[key[in_data]]
+        if how == "set-phase-id":
+            new = np.array([vsp["pid"][i] for i in v["sel"]])
+            part.phase_id = int(new[0]) if v["scalar"] else new
+        else:
+            p = [p for p in vsp["props"] if p["name"] == v["prop"]][0]
+            new = np.array([p["vals"][i] for i in v["sel"]], dtype=float)
+            if p["kind"] == "int":
+                new = new.astype(np.int64)
+            if v["attr"]:
+                setattr(part, p["name"], new)
+            else:
+                part.prop[p["name"]] = new
+    elif how == "add-phase":
+        a = v["phase"]
+        alt.phases.add(Phase(name=a["name"], point_group=a["pg"], structure=Structure(lattice=Lattice(*a["lat"]))))
+    got = audit_oracle(alt, vsp, tag)
+    if how != "add-phase":
+        ref = write_read(build(vsp), kwargs_of(vsp))
+        audit_same_file(tag, ref, got, vsp, f"map changed in place ({how}) vs the same map made by the constructor")
+
+
+# ---- 3. entry points: pathlib.Path / upper-case extension / overwrite=False, the plugin's writer and reader
+#         called directly, an existing longer file replaced
+ENTRIES = [("save-path-upper", "load-path"), ("plugin", "plugin"), ("overwrite-longer", "load-str"),
+           ("save-path-upper", "plugin"), ("plugin", "load-path")]
+
+
+def gen_entry(pair):
+    sp = base_spec()
+    sp["variant"] = {"name": "entry", "writer": pair[0], "reader": pair[1]}
+    return sp
+
+
+def run_entry(vsp):
+    v = vsp["variant"]
+    tag = f"entry={v['writer']}+{v['reader']}"
+    xm = build(vsp)
+    ref = write_read(xm, kwargs_of(vsp))
+    got = audit_oracle(xm, vsp, tag, writer=v["writer"], reader=v["reader"])
+    audit_same_file(tag, ref, got, vsp, f"written through {v['writer']} vs io.save(str)")
+    d = same_loaded(ref[1], got[1])
+    if d:
+        fail(f"{tag}/loaded-differs", f"read through {v['reader']} vs io.load(str): {d}", vsp)
+
+
+# ---- 4. class of the rotations: Orientation (with and without symmetry), Misorientation instead of Rotation
+ROT_CLASSES = ["Orientation", "Orientation+symmetry", "Misorientation"]
+
+
+def gen_rot_class(cls):
+    sp = base_spec()
+    sp["variant"] = {"name": "rot-class", "cls": cls, "pg": R.choice(GROUP_NAMES)}
+    return sp
+
+
+def run_rot_class(vsp):
+    from orix.quaternion import Misorientation, Orientation
+    v = vsp["variant"]
+    tag = "rot-class=" + v["cls"]
+    sym = [g for g in _groups if g.name == v["pg"]][0]
+    if v["cls"] == "Orientation":
+        cls = Orientation
+    elif v["cls"] == "Orientation+symmetry":
+        cls = lambda r: Orientation(r, symmetry=sym)  # noqa: E731
+    else:
+        cls = lambda r: Misorientation(r, symmetry=(sym, sym))  # noqa: E731
+    ref = write_read(build(vsp), kwargs_of(vsp))
+    got = audit_oracle(build(vsp, rot_cls=cls), vsp, tag)
+    audit_same_file(tag, ref, got, vsp, f"rotations given as {v['cls']} vs Rotation")
+
+
+# ---- 5. dtype of the property arrays (the generator above has float64 and int64 only)
+DTYPES = ["float32", "int32", "uint8", "int16", "uint16", "bool", "float16"]
+
+
+def gen_dtype(dt):
+    sp = base_spec(["plain", "masked", "kw", "multi-layer"])
+    n = sp["nr"] * sp["nc"]
+    names = [R.choice(IQ_NAMES), R.choice(CI_NAMES + DS_NAMES), R.choice(OTHER_NAMES)]
+    props = []
+    for nm in names:
+        multi = R.choice([0, 0, 2]) if sp["rpp"] > 1 else 0
+        def val():  # noqa: E306
+            if dt == "float32":
+                return float(np.float32(rand_value(R.choice(["unit", "signed", "big", "tie"]))))
+            if dt == "float16":
+                return float(np.float16(R.random()))
+            if dt == "bool":
+                return float(R.random() < 0.5)
+            lo, hi = {"int32": (-70000, 70000), "uint8": (0, 255), "int16": (-300, 300), "uint16": (0, 65535)}[dt]
+            return float(R.randint(lo, hi))
+        vals = [[val() for _ in range(multi)] for _ in range(n)] if multi else [val() for _ in range(n)]
+        props.append({"name": nm, "multi": multi, "vals": vals, "kind": "dtype", "dtype": dt})
+    sp["props"] = props
+    idx = R.choice([None, 0, 1, -1]) if sp["rpp"] > 1 else None
+    sp["kw"] = {"index": idx, "iq": None, "ci": None, "ds": None, "fit": None, "extra": [names[2]]}
+    if R.random() < 0.5:
+        sp["kw"]["fit"] = names[0]
+    sp["variant"] = {"name": "prop-dtype", "dtype": dt}
+    return sp
+
+
+def run_dtype(vsp):
+    audit_oracle(build(vsp), vsp, "prop-dtype=" + vsp["variant"]["dtype"])
+
+
+# ---- 6. origin of the coordinates (the generator's maps all start at (0, 0)), also for selections of such maps
+def gen_origin(k):
+    sp = base_spec(["plain", "masked", "1d", "column", "tiny", "three-in-data", "multi-layer"])
+    exact = k % 2 == 0
+    if exact:
+        sp["dx"], sp["dy"] = R.choice([1.0, 1.5, 0.25, 2.0, 10.0]), R.choice([1.0, 1.5, 0.25, 2.0, 10.0])
+        org = [R.randint(-4000, 4000) * 0.25, R.randint(-4000, 4000) * 0.25]
+    else:
+        org = [round(R.uniform(-500, 500), R.choice([1, 2, 5])), round(R.uniform(-500, 500), R.choice([1, 2, 5]))]
+    if k % 3 == 0:
+        org[R.randrange(2)] = 0.0
+    sp["origin"] = org
+    sp["variant"] = {"name": "origin", "exact": exact}
+    return sp
+
+
+def run_origin(vsp):
+    audit_oracle(build(vsp), vsp, "origin=" + ("exact" if vsp["variant"]["exact"] else "inexact"))
+
+
+# ---- 7. phases made through the other keywords: space group instead of point group, Phase objects, name taken
+#         from the structure's title, Symmetry objects, atoms in the structure, ids far from 0..n
+def gen_phase_entry(k):
+    sp = base_spec(["plain", "masked", "kw", "multi-layer", "1d"])
+    how = ["space_groups=", "Phase(space_group)", "Phase(title, Symmetry)", "dict of Phase"][k % 4]
+    remap = {}
+    for j, p in enumerate(sp["phases"]):
+        remap[p["id"]] = p["id"] if k % 3 else p["id"] * 37 + 11
+        p["sg"] = R.randint(1, 230) if "space" in how or R.random() < 0.5 else None
+        if not p["name"]:
+            p["name"] = f"n{j}"
+        p["id"] = remap[p["id"]]
+    sp["pid"] = [remap.get(i, -1) for i in sp["pid"]]
+    sp["variant"] = {"name": "phase-entry", "how": how}
+    return sp
+
+
+def run_phase_entry(vsp):
+    from diffpy.structure import Atom
+    how = vsp["variant"]["how"]
+    ph = vsp["phases"]
+    sym = {g.name: g for g in _groups}
+    strs = [Structure(lattice=Lattice(*p["lat"])) for p in ph]
+    if how == "space_groups=":
+        pl = PhaseList(names=[p["name"] for p in ph], space_groups=[p["sg"] for p in ph], ids=[p["id"] for p in ph],
+                       structures=strs)
+    else:
+        objs = []
+        for p, s in zip(ph, strs):
+            if how == "Phase(title, Symmetry)":
+                s = Structure(atoms=[Atom("Fe", [0, 0, 0]), Atom("C", [0.5, 0.5, 0.5])], lattice=Lattice(*p["lat"]),
+                              title=p["name"])
+                pg = None if p["pg"] is None else sym[p["pg"]]
+                objs.append(Phase(space_group=p["sg"], point_group=pg if p["sg"] is None else None, structure=s))
+            else:
+                objs.append(Phase(name=p["name"], space_group=p["sg"],
+                                  point_group=p["pg"] if p["sg"] is None else None, structure=s,
+                                  color=R.choice(["r", "g", "b"]) if False else None))
+        if how == "dict of Phase":
+            pl = PhaseList({p["id"]: o for p, o in zip(ph, objs)})
+        else:
+            pl = PhaseList(objs, ids=[p["id"] for p in ph])
+    xm = build(vsp, phase_list=pl)
+    for p in ph:                       # reference for the symmetry actually written: the space group's point group
+        if p["sg"] is not None and p["id"] in xm.phases.ids:
+            from orix.quaternion.symmetry import get_point_group
+            want = get_point_group(int(p["sg"])).name
+            got = xm.phases[p["id"]].point_group
+            if got is None or got.name != want:
+                fail("phase-entry/space-group-not-used", f"phase with space group {p['sg']} has point group "
+                                                         f"{getattr(got, 'name', None)}, expected {want}", vsp)
+    audit_oracle(xm, vsp, "phase-entry=" + how)
+
+
+# ---- 8. several values per point in a property of a map with ONE rotation per point (the generator gives
+#         several layers to properties only when the rotations have several as well)
+def gen_multi_prop(k):
+    sp = base_spec(["plain", "masked", "kw", "1d", "tiny"])
+    n = sp["nr"] * sp["nc"]
+    if sp["rpp"] > 1:
+        sp["rpp"] = 1
+        sp["quat"] = [[q[0]] for q in sp["quat"]]
+    names = [R.choice(IQ_NAMES), R.choice(CI_NAMES), R.choice(OTHER_NAMES)]
+    layers = [2, 3, 1, 4][k % 4]            # 3 values per point look like RGB to get_map_data
+    sp["props"] = [{"name": nm, "multi": layers, "kind": "unit",
+                    "vals": [[rand_value("unit") for _ in range(layers)] for _ in range(n)]} for nm in names]
+    sp["kw"] = {"index": None, "iq": None, "ci": None, "ds": names[2] if k % 2 else None, "fit": None,
+                "extra": [names[2]]}
+    sp["variant"] = {"name": "multi-prop-single-rot", "layers": layers}
+    return sp
+
+
+def run_multi_prop(vsp):
+    audit_oracle(build(vsp), vsp, f"multi-prop-single-rot={vsp['variant']['layers']}")
+
+
+# ---- 9. NaN in the properties of not-indexed and of masked-out points (their columns hold the sentinels)
+def gen_nan(k):
+    for _ in range(100):
+        sp = base_spec(["plain", "masked", "kw", "multi-layer"], props=True)
+        n = sp["nr"] * sp["nc"]
+        for i in range(n):
+            if R.random() < 0.35:
+                sp["pid"][i] = -1
+        if -1 in sp["pid"] and any(i != -1 for i in sp["pid"]):
+            break
+    sp["props"] = [p for p in sp["props"] if p["kind"] != "int"] or sp["props"][:1]
+    keep = [p["name"] for p in sp["props"]]
+    for s in ("iq", "ci", "ds", "fit"):
+        if sp["kw"][s] and sp["kw"][s] not in keep:
+            sp["kw"][s] = None
+    if sp["kw"]["extra"] is not None:
+        ex = [sp["kw"]["extra"]] if isinstance(sp["kw"]["extra"], str) else sp["kw"]["extra"]
+        sp["kw"]["extra"] = [e for e in ex if e in keep] or [keep[0]]
+    else:
+        sp["kw"]["extra"] = [keep[-1]]
+    sp["variant"] = {"name": "nan-not-indexed", "value": ["nan", "inf", "-inf"][k % 3]}
+    return sp
+
+
+def run_nan(vsp):
+    n = vsp["nr"] * vsp["nc"]
+    bad = float(vsp["variant"]["value"])
+    in_data = vsp["mask"] or [True] * n
+    sp2 = dict(vsp)
+    sp2["props"] = []
+    for p in vsp["props"]:
+        p = dict(p)
+        p["kind"] = "float"
+        p["vals"] = [([bad] * len(r) if isinstance(r, list) else bad) if (vsp["pid"][i] == -1 or not in_data[i]) else r
+                     for i, r in enumerate(p["vals"])]
+        sp2["props"].append(p)
+    audit_oracle(build(sp2), vsp, "nan-not-indexed=" + vsp["variant"]["value"])
+
+
+# ---- 10. second generation: the map loaded from a written file is written again (with its extra columns) and
+#          must come back as it is
+def gen_rewrite(k):
+    sp = base_spec()
+    sp["variant"] = {"name": "rewrite"}
+    return sp
+
+
+def run_rewrite(vsp):
+    xm = build(vsp)
+    _, xm2, _ = write_read(xm, kwargs_of(vsp))
+    if xm2 is None:
+        st("audit/rewrite-first-generation-refused")
+        return
+    extra = [k for k in xm2.prop.keys() if k not in ("iq", "ci", "detector_signal", "fit")]
+    one_col = xm2.ndim == 1 and xm2.x is None
+    # an extra column whose name is itself a default candidate (e.g. "ss") would compete with the standard column
+    # in the discovery by name: then the standard properties are chosen by keyword, otherwise found by name
+    amb = any(norm(e) in c for e in extra for c in DOC_DEFAULTS) or len(extra) % 2 == 1
+    std = {"iq": "iq", "ci": "ci", "ds": "detector_signal", "fit": "fit"} if amb else dict.fromkeys(("iq", "ci", "ds", "fit"))
+    sp2 = {"stratum": vsp["stratum"], "variant": vsp["variant"], "base": {k: w for k, w in vsp.items() if k != "variant"},
+           "rpp": 1, "props": [], "kind": "1dy" if one_col else ("1dx" if xm2.ndim == 1 else "2d"),
+           "kw": dict(std, index=None, extra=extra or None)}
+    n0 = len(fails)
+    _, xm3, _ = audit_oracle(xm2, sp2, "rewrite")
+    for f in fails[n0:]:               # the replayable input is the first-generation spec
+        f["what"] += f" (second generation, written with {sp2['kw']})"
+        f["replay"] = {"spec": vsp}
+    if xm3 is not None:
+        ids2, ids3 = [i for i in xm2.phases.ids if i != -1], [i for i in xm3.phases.ids if i != -1]
+        if ids2 == list(range(1, len(ids2) + 1)) and ids3 != ids2:
+            fail("rewrite/phase-ids", f"phase ids {ids2} of a loaded map come back as {ids3}", vsp)
+
+
+# ---- 11. two candidates for one standard column at once (two documented default names, or two names that
+#          normalise to the same one): the first in the documented order / in the order of the properties is used
+TWO_DEFAULTS = [("iq", "image_quality"), ("Imagequality", "iq"), ("ci", "scores"), ("Correlation", "confidence_index"),
+                ("scores", "correlation"), ("ds", "detector_signal"), ("detector_signal", "ds"), ("fit", "pattern_fit"),
+                ("Pattern_Fit", "Fit"), ("IQ", "iq"), ("CI", "ci"), ("Scores", "scores")]
+
+
+def gen_two_defaults(pair):
+    sp = base_spec(["plain", "masked", "multi-layer", "1d"])
+    n = sp["nr"] * sp["nc"]
+    props = []
+    for nm in list(pair) + [R.choice(OTHER_NAMES)]:
+        multi = R.choice([0, sp["rpp"]]) if sp["rpp"] > 1 else 0
+        vals = [[rand_value("unit") for _ in range(multi)] for _ in range(n)] if multi else \
+            [rand_value("unit") for _ in range(n)]
+        props.append({"name": nm, "multi": multi, "vals": vals, "kind": "unit"})
+    sp["props"] = props
+    sp["kw"] = {"index": R.choice([None, 0, -1]) if sp["rpp"] > 1 else None, "iq": None, "ci": None, "ds": None,
+                "fit": None, "extra": None}
+    sp["variant"] = {"name": "two-defaults", "pair": list(pair)}
+    return sp
+
+
+def run_two_defaults(vsp):
+    audit_oracle(build(vsp), vsp, "two-defaults=" + "+".join(vsp["variant"]["pair"]))
+
+
+VARIANTS = {"history": (gen_history, run_history, HISTORIES), "inplace": (gen_inplace, run_inplace, INPLACE),
+            "entry": (gen_entry, run_entry, ENTRIES), "rot-class": (gen_rot_class, run_rot_class, ROT_CLASSES),
+            "prop-dtype": (gen_dtype, run_dtype, DTYPES), "origin": (gen_origin, run_origin, list(range(6))),
+            "phase-entry": (gen_phase_entry, run_phase_entry, list(range(12))),
+            "multi-prop-single-rot": (gen_multi_prop, run_multi_prop, list(range(4))),
+            "nan-not-indexed": (gen_nan, run_nan, list(range(3))), "rewrite": (gen_rewrite, run_rewrite, list(range(6))),
+            "two-defaults": (gen_two_defaults, run_two_defaults, TWO_DEFAULTS)}
+
+
+def run_variant(vsp):
+    name = vsp["variant"]["name"]
+    try:
+        VARIANTS[name][1](vsp)
+    except Exception as e:  # noqa
+        import traceback
+        tb = traceback.extract_tb(e.__traceback__)[-1]
+        fail(f"{name}/harness-or-library-raises", f"stratum {vsp['variant']}: {type(e).__name__}: {e} "
+                                                  f"(at {os.path.basename(tb.filename)}:{tb.lineno})", vsp)
+
+
+def run_audit(reps):
+    for name, (gen, _, modes) in VARIANTS.items():
+        for _ in range(reps):
+            for mode in modes:               # deterministic cycling over the modes of a stratum
+                run_variant(gen(mode))
+
+
+
 # ------------------------------------------------------------------ main
 tables = {"groups": [[g.name, g.proper_subgroup.name] for g in _groups],
           "aliases": [[k, list(v)] for k, v in point_group_aliases.items()]}
@@ -651,7 +1376,10 @@ for g in _groups:
 
 if ONLY:
     for sp in ONLY:
-        run_spec(sp)
+        if "variant" in sp:
+            run_variant(sp)
+        else:
+            run_spec(sp)
 else:
     forced = ["plain", "masked", "1d", "tiny", "three-in-data", "one-in-data", "column", "coarse-step",
               "blank-name", "ci-collision", "multi-layer", "kw", "kw-error", "big-coords"]
@@ -662,6 +1390,8 @@ else:
         run_spec(rand_spec("tiny", tiny=t))
     for _ in range(max(0, N - len(forced) - len(TINY))):
         run_spec(rand_spec())
+    # audit strata (after the cases of the correspondence, so that those are the same as before for a given seed)
+    run_audit(2 if N <= 500 else 12)
 
 for f in os.listdir(TMP):
     try:
